@@ -44,6 +44,8 @@ def run(variant: str, ch: e2.Choices, bound: int) -> Dict[str, Any]:
         cls = SyncInterpreter
         sched.trace_codes = {cls.send.__code__, cls._process_event_queue.__code__, cls.stop.__code__,
                              inner_code(cls._schedule_after if hasattr(cls, "_schedule_after") else cls._after_timer, "timer_thread")}
+        sched.watch_codes = {cls._process_event.__code__, cls._process_event_queue.__code__}
+        sched.on_frame = lambda kind, th, fn: log.append(("PROC-START" if fn == "_process_event" else "DRAIN-START", None, th))
         it.start()
         # every send() call is bracketed in the log, so an action can be attributed to the call that carried it
         real_send = it.send
@@ -76,9 +78,17 @@ def run(variant: str, ch: e2.Choices, bound: int) -> Dict[str, Any]:
         first_stop = next((k for k, e in enumerate(log) if e[0] == "STOP-RETURNED"), None)
         if first_stop is not None:
             last_send: Dict[str, int] = {}
+            last_drain: Dict[str, int] = {}
             for k, e in enumerate(log):
                 if e[0] == "SEND-START":
                     last_send[e[2]] = k
+                elif e[0] == "DRAIN-START":
+                    last_drain[e[2]] = k
+                elif e[0] == "PROC-START":
+                    # a drain that STARTS after stop() has returned must find nothing to process (one that was already
+                    # running when stop() returned is concurrent with it)
+                    if k > first_stop and last_drain.get(e[2], -1) > first_stop:
+                        bad.append(("delivered-after-stop-returned", f"thread {e[2].split('::')[0]} started a drain after stop() had returned and processed an event in it"))
                 elif e[0] != "STOP-RETURNED" and k > first_stop and last_send.get(e[2], -1) > first_stop:
                     bad.append(("delivered-after-stop-returned", f"action {e[0]} ran in a send() call that started after stop() had returned"))
         alive = [t.name.split("::")[0] for t in sched.live()]
@@ -86,7 +96,7 @@ def run(variant: str, ch: e2.Choices, bound: int) -> Dict[str, Any]:
             bad.append(("thread-survives-stop", f"{alive} still alive (blocked) at quiescence"))
         if it._event_queue:
             bad.append(("queued-after-stop", f"{[e.type for e in it._event_queue]} left in the queue of a stopped interpreter"))
-        order = tuple(e[0] for e in log)
+        order = tuple(e[0] for e in log if e[0] not in ("PROC-START", "DRAIN-START"))
         return dict(key=order, bad=bad, order=order, schedule=d["schedule"], preemptions=d["preemptions"])
     finally:
         try:
